@@ -373,7 +373,7 @@ impl CommandAnalyzer {
                 .strip_prefix("Result<")
                 .and_then(|s| s.strip_suffix(">"))
             {
-                if let Some(comma_pos) = inner.find(',') {
+                if let Some(comma_pos) = type_resolver::find_top_level_comma(inner) {
                     let ok_type = inner[..comma_pos].trim();
                     let err_type = inner[comma_pos + 1..].trim();
                     self.extract_type_names_recursive(ok_type, type_names);
@@ -419,7 +419,7 @@ impl CommandAnalyzer {
                 .strip_prefix(prefix)
                 .and_then(|s| s.strip_suffix(">"))
             {
-                if let Some(comma_pos) = inner.find(',') {
+                if let Some(comma_pos) = type_resolver::find_top_level_comma(inner) {
                     let key_type = inner[..comma_pos].trim();
                     let value_type = inner[comma_pos + 1..].trim();
                     self.extract_type_names_recursive(key_type, type_names);
@@ -448,7 +448,7 @@ impl CommandAnalyzer {
         // Handle tuple types like (T, U, V)
         if rust_type.starts_with('(') && rust_type.ends_with(')') && rust_type != "()" {
             let inner = &rust_type[1..rust_type.len() - 1];
-            for part in inner.split(',') {
+            for part in type_resolver::split_top_level(inner) {
                 self.extract_type_names_recursive(part.trim(), type_names);
             }
             return;
